@@ -106,13 +106,49 @@ def join(a, b):
     return LexState(max(worst, 1), "?", nz, z)
 
 
+def lexer_globals(p):
+    """(cursor, line counter): the file-scope variables of the description scanner, found by their role -- the cursor is the char pointer that yaep_yylex steps
+    by one (`p = p +/- 1' stored back into p), the line counter the integer it increments by one and yaep_yyerror hands to yaep_error"""
+    from ..model import loaded_from, strip_int_casts
+    f = p.fn("yaep_yylex")
+    cur, ln = {}, {}
+    for s_ in f.all_insts():
+        if s_.op != "store":
+            continue
+        pa = resolve_addr(f, s_.ops[1])
+        if pa.root[0] != "g" or pa.steps:
+            continue
+        v = f.inst(strip_casts(f, s_.ops[0]))
+        if v is not None and v.op == "getelementptr" and len(v.d["path"]) == 1 and "ptr" in v.d["path"][0] and const_int(v.d["path"][0]["ptr"]) in (1, -1):
+            lp = loaded_from(f, v.d["base"])
+            if lp is not None and lp.root == pa.root and not lp.steps:
+                cur[pa.root[1]] = cur.get(pa.root[1], 0) + 1
+        v2 = f.inst(strip_int_casts(f, s_.ops[0]))
+        if v2 is not None and v2.op == "add" and const_int(v2.ops[1]) == 1:
+            lp = loaded_from(f, v2.ops[0])
+            if lp is not None and lp.root == pa.root and not lp.steps:
+                ln[pa.root[1]] = ln.get(pa.root[1], 0) + 1
+    ye = p.m.functions.get("yaep_yyerror")
+    if ye is not None and not ye.decl:
+        used = set()
+        for c in ye.calls():
+            for a in c.args:
+                lp = loaded_from(ye, a)
+                if lp is not None and lp.root[0] == "g" and not lp.steps:
+                    used.add(lp.root[1])
+        ln = dict((k, v) for k, v in ln.items() if k in used) or ln
+    if not cur or not ln:
+        raise AnalysisBroken("the cursor / line counter of the description scanner were not found (a pointer stepped by one, an integer incremented by one)")
+    return max(cur, key=cur.get), max(ln, key=ln.get)
+
+
 def rule_R4b(ctx, rep, config="c-lib"):
     rep.rule("R4b", "abstract interpretation of the description lexer: every read through the cursor curr_ch happens while the cursor is known to point inside the "
                     "NUL-terminated text; a token other than end-of-input is never returned with the cursor beyond the terminator")
     p = ctx.prog(config)
     f = p.fn("yaep_yylex")
     rep.cover(p, ["yaep_yylex"])
-    CUR = "curr_ch"
+    CUR = lexer_globals(p)[0]
     from ..sccp import sccp
     feasible, _vals = sccp(f)
 
